@@ -201,8 +201,8 @@ c08p = B('c08_itoa', 'c08_itoa.cpp', 'prod', defines=['-DVF_CANARY'])
 PROPS['C08'] = dict(
     title='64-bit integers print as their exact decimal representation',
     units=[
-        U(c08, 'prng', 382, 382, wq=4, wt=4, label='c08-kernels-asan', args=['--kernels'], sharded=True),
-        U(c08p, 'prng', 382, 382, wq=4, wt=4, label='c08-kernels-prod', args=['--kernels'], sharded=True),
+        U(c08, 'prng', 382, 382, wq=4, wt=4, label='c08-kernels-asan', args=['--kernels'], sharded=True, cap_s=dict(quick=150, thorough=900)),
+        U(c08p, 'prng', 382, 382, wq=4, wt=4, label='c08-kernels-prod', args=['--kernels'], sharded=True, cap_s=dict(quick=150, thorough=900)),
         U(c08, 'prng', 400000, 20000000, wq=2, wt=4, label='c08-compose-asan'),
         U(c08p, 'prng', 1500000, 100000000, wq=2, wt=4, label='c08-compose-prod'),
         U(c08, 'rc', 5000, 100000, wq=1, wt=2, label='c08-rc'),
@@ -214,7 +214,7 @@ PROPS['C08'] = dict(
          'signed and unsigned, directly and through Serialize+Parse. Oracle: snprintf; length and 33-byte write bound (ASan '
          'heap block / canary); parse-back keeps kind and value. Non-trivial: >= 9 digits or negative. evaluations counts the '
          'kernel evaluations as oracle sub-evaluations.',
-    min_evaluations=dict(quick=100000000, thorough=200000000),
+    min_evaluations=dict(quick=50000000, thorough=200000000),
     required_classes=['kernel-block', 'class:pow10-boundary', 'class:pow2-boundary', 'class:digit-count', 'class:group-pattern',
                       'signed', 'unsigned'],
 )
